@@ -12,7 +12,7 @@ def run(chk):
             chk.failures.append(core.Failure("harness produced no result (crash)", "recon", "matrix", l, raw, key="crash")); break
         for msg in recon.oracle_c02(c, r):
             chk.failures.append(core.Failure(msg, "recon", "matrix", l, raw, key="c02"))
-        if len(chk.failures) > 10: break
+        if chk.too_many(): break
     return chk.finish(level="proof",
         rule="recon stream: random geometry (n<=%d, block sizes 1..256, capacity 0..n, V width 8/64/256), matrices (LoRaWAN / random / sparse / zero / duplicate rows), "
              "arrival classes (data-then-coded, shuffled, coded-first, trickle between refusals, heavy duplication, late data); non-trivial = reaches Done, contains a refusal, stores a pivot or eliminates; distinct by case text" % nmax,
